@@ -139,6 +139,9 @@ type Exec struct {
 	pruned           int
 	qn               int
 	lastLocalMods    []*Loc
+	fcIdents         map[string]bool
+	renameMap        map[string]string   // contract identifier -> local variable it is taken to denote (rename fallback)
+	renameCands      map[string][]string // unresolved identifier -> candidate locals (several unmentioned locals)
 	qfForward        bool    // instantiation order used by the quantifier-free weakening of the current attempt
 	pendingInv       []*Term // assumed field ranges of values read while evaluating a contract expression
 }
